@@ -103,12 +103,13 @@ def confirm(prop, n, src, wt, log):
 
 def evaluate(prop, mid):
     # the evaluation copy follows /verif's HEAD (committed state), keeps its own build output
-    sh("rm -rf /tmp/vexport && mkdir -p /tmp/vexport %s && git -C %s archive HEAD | tar -x -C /tmp/vexport" % (VCOPY, VERIF))
+    VEXP = VCOPY.rstrip("/") + ".export"
+    sh("rm -rf %s && mkdir -p %s %s && git -C %s archive HEAD | tar -x -C %s" % (VEXP, VEXP, VCOPY, VERIF, VEXP))
     if not os.path.isdir(os.path.join(VCOPY, "lean", ".lake")):
         sh("rsync -a --exclude .git %s/ %s/" % (VERIF, VCOPY))
     sh("rsync -a --delete --exclude .work --exclude lean/.lake --exclude lean/Audit --exclude lean/OnosVerif/Generated "
-       "--exclude harness/props/all_gen.go --exclude lean/Driver/Handlers.lean --exclude lean/OnosVerif.lean /tmp/vexport/ %s/" % VCOPY)
-    sh("rm -rf /tmp/vexport")
+       "--exclude harness/props/all_gen.go --exclude lean/Driver/Handlers.lean --exclude lean/OnosVerif.lean %s/ %s/" % (VEXP, VCOPY))
+    sh("rm -rf %s" % VEXP)
     head = sh("git -C /repo rev-parse HEAD")[1].strip()
     if not os.path.isdir(EVALWT):
         sh("git -C /repo worktree add --detach %s HEAD" % EVALWT)
@@ -129,6 +130,8 @@ def evaluate(prop, mid):
     kinds = sorted(set(re.findall(r"kind=(\w+)", "\n".join(details))))
     if rc == 0 and not viol:
         verdict = "MISSED"
+    elif rc != 1 or not viol:
+        verdict = "EVALUATION-FAILED: exit %d, %d VIOLATION lines (the check did not run to its verdict)" % (rc, len(viol))
     else:
         verdict = "caught: exit %d, %d VIOLATION (%d with a concrete replay, %d no-failing-input-found)" % (rc, len(viol), len(concrete), len(viol) - len(concrete))
         if notes:
